@@ -81,6 +81,24 @@ def case_twin(t):
     return T.map_term(f, t)
 
 
+_INT_SHIFT = {"-3": "-1", "-1": "0", "0": "1", "1": "2", "2": "7", "7": "-3"}
+
+
+def literal_twin(t, profile):
+    """Same skeleton, other literal values (integers shifted inside the pool, strings
+    replaced by another pool string): a structure-keyed cache that ignores values shows up
+    as wrong rows for the twin."""
+    pool = list(profile.str_lits) if profile is not None else list(scalar.STR_LITS)
+
+    def f(x):
+        if x[0] == "lit" and x[1] == "int" and x[2] in _INT_SHIFT:
+            return ("lit", "int", _INT_SHIFT[x[2]])
+        if x[0] == "lit" and x[1] == "str" and x[2] in pool and len(pool) > 1:
+            return ("lit", "str", pool[(pool.index(x[2]) + 3) % len(pool)])
+        return x
+    return T.map_term(f, t)
+
+
 def judge(ctx, t, rng, select, keys_fn, cls, like_fold=True, cap=400, extra_case=None,
           profile=None, twin=True):
     ok = _judge(ctx, t, rng, select, keys_fn, cls, like_fold, cap, extra_case, profile)
@@ -89,6 +107,11 @@ def judge(ctx, t, rng, select, keys_fn, cls, like_fold=True, cap=400, extra_case
         if t2 != t:
             ctx.count("case_twins")
             _judge(ctx, t2, rng, select, keys_fn, cls + ":case-twin", like_fold, cap, extra_case, None)
+    if ok and twin and ctx.counters.get("evaluations", 0) % 3 == 1:
+        t3 = literal_twin(t, profile)
+        if t3 != t and (profile is None or scalar.conforms(t3, profile)):
+            ctx.count("literal_twins")
+            _judge(ctx, t3, rng, select, keys_fn, cls + ":literal-twin", like_fold, cap, extra_case, profile)
     return ok
 
 
